@@ -248,7 +248,7 @@ func seedBody(c *explore.Chooser) *explore.Case {
 	var text, what string
 	switch class {
 	case 0: // unmutated + whole-file transformations
-		k := c.Free(7, "file-op")
+		k := c.Free(9, "file-op")
 		switch k {
 		case 0:
 			text, what = seed, "none"
@@ -264,6 +264,14 @@ func seedBody(c *explore.Chooser) *explore.Case {
 			text, what = strings.ReplaceAll(seed, "  ", "\t"), "tabs"
 		case 6:
 			text, what = seed+seed, "doubled"
+		case 7: // a physical line longer than any line-buffer size in use (64 KiB scanners, 4 KiB readers)
+			text, what = "# "+strings.Repeat("x", 70000)+"\n"+seed, "70 kB comment line on top"
+		case 8:
+			if i := strings.Index(seed, "\n"); i >= 0 {
+				text, what = seed[:i]+" # "+strings.Repeat("x", 70000)+seed[i:], "70 kB trailing comment on the first line"
+			} else {
+				return &explore.Case{Skip: true}
+			}
 		}
 	case 1: // line-level structural
 		kind := c.Free(10, "line-op")
